@@ -73,7 +73,7 @@ Definition wf_level_col (h ha : hier) (lvl : name) : Z :=
   | None => 0
   end.
 
-From V Require Import Model.InsHier Model.InsHierRun Model.UniHierRun.
+From V Require Import Model.InsHier Model.InsHierRun Model.UniHierRun Model.HelperCol.
 
 Definition wf_col_lh (rows : list (list Z)) : Z :=
   let '(br, ar, op, st, dm) := split_lh rows in
@@ -89,7 +89,7 @@ Definition wf_col_ib (rows : list (list Z)) : Z :=
   | _, _, _ => 0
   end.
 
-Definition run_looph4 (rows : list (list Z)) : list Z := run_looph3 rows ++ [wf_col_lh rows].
+Definition run_looph4 (rows : list (list Z)) : list Z := run_looph3h rows ++ [wf_col_lh rows].
 Definition run_ibh3 (rows : list (list Z)) : list Z := run_ibh2 rows ++ [wf_col_ib rows].
 
 From V Require Import Model.LevelCons.
